@@ -8,6 +8,8 @@ require (
 	pgregory.net/rapid v1.3.0
 )
 
+require go.uber.org/automaxprocs v1.5.2 // indirect
+
 replace github.com/TarsCloud/TarsGo => /repo
 
 replace github.com/TarsCloud/TarsGo/tars/tools/tars2go => /repo/tars/tools/tars2go
